@@ -19,7 +19,7 @@ EXPLANATION = (
     "TokenReference::symbol is a valid symbol, newline free, and is the lexeme of the token it replaces. (R-COLLAPSE) the single-line `if` and the collapsed function body are chosen only after every token that would be followed by more text on the line was tested for comments. (R-ARMS) every arm that handles a feature-gated AST variant on the pinned tree (frozen table, 200+ arms; invisible to the default-feature suite and usually followed by a silent wildcard) is still present. (R-GUARD) every comment test that selects a comment-safe layout on the current tree (frozen table: function, predicate, node) still exists and asks about the same node, in formatters and in the predicate helpers. (R-INTERP, luau) every interpolated-string segment is built from format_expression's result after that *formatted* result was asked whether it is a table constructor, and a space is prepended when it is (`{{` does not lex). KNOWN GAP (F21, DESIGN section 10): a line comment directly after many tokens (numeric-for header, `local`, `function`, callee name, `[` ..) swallows the code printed after it; genuine violations of this class exist on the tree and are not reported by this check. Not decided: "
     "that a trailing line comment is always followed by a newline on every layout (layout dependent); the optional "
     "built-in re-parse."
-    "Later rounds: (R-KEEP(e)) per variant, a trivia getter and its setter name the same field; (R-COMMENTLAYOUT) nine confirmed sites where a comment test must force the hanging layout. Rounds 17-19: (R-REGEX) the escape-rewriting table also under C01. Rounds 20-21: the grammar oracle of R-PAREN for every operand role (a type assertion left of `<` must keep its parentheses or the output does not parse).")
+    "Later rounds: (R-KEEP(e)) per variant, a trivia getter and its setter name the same field; (R-COMMENTLAYOUT) nine confirmed sites where a comment test must force the hanging layout. Rounds 17-19: (R-REGEX) the escape-rewriting table also under C01. Rounds 20-21: the grammar oracle of R-PAREN for every operand role (a type assertion left of `<` must keep its parentheses or the output does not parse). Round 23: (R-SEMI(last)) check_stmt_requires_semicolon and the block-formatter helpers it reaches never consult a non-last child (then-branch / condition of an if-expression, lhs of a binary operator, operand of a type assertion) when judging how the current statement ends.")
 ASSUMPTIONS = ["Lua lexical facts: `--` starts a comment, `[[` opens a long bracket, a statement starting with `(` "
                "continues the previous expression", "the lexeme tables in r_tree.py restate Lua 5.1-5.4/Luau tokens",
                "rustc MIR and Instance::try_resolve are trusted"]
@@ -27,7 +27,7 @@ ASSUMPTIONS = ["Lua lexical facts: `--` starts a comment, `[[` opens a long brac
 
 def run(ctx):
     return [r_paren.rule_paren(ctx, "C01", parts=("minus",)), r_tree.rule_bracket(ctx, "C01"),
-            r_tree.rule_semi(ctx, "C01"), r_tree.rule_sym(ctx, "C01"), r_tree.rule_collapse(ctx, "C01"), r_arms.rule_arms(ctx, "C01"),
+            r_tree.rule_semi(ctx, "C01"), r_tree.rule_semi_last(ctx, "C01"), r_tree.rule_sym(ctx, "C01"), r_tree.rule_collapse(ctx, "C01"), r_arms.rule_arms(ctx, "C01"),
             r_guard.rule_guard(ctx, "C01"), r_replace.rule_strip_contract(ctx, "C01"), r_interp.rule_interp(ctx, "C01"), r_typaren.rule_typaren(ctx, "C01"),
             r_paren.rule_paren(ctx, "C01", parts=("oracle",), roles=("prefix",), all_kinds=True,
                                why="on a call / index prefix they are mandatory: `({..})[i]` becomes `{..}[i]`, "
